@@ -6,6 +6,7 @@ harness (pyvc.native) - see DESIGN.md 2.5.  Views are modelled as copies except 
 (in-place updates through them are visible, as in torch).
 """
 import math
+import fractions
 import itertools
 import z3
 from .sym import (Unsupported, is_sym, to_real, to_num, s_add, s_sub, s_mul, s_div, s_abs, s_cmp, s_ite, s_floor,
@@ -822,6 +823,17 @@ def _dot(xs, ys):
     return acc
 
 
+def _softmax_logits(p, xs):
+    """if xs is exactly the output vector of one softmax call of this path, its logits (same order, same ties)"""
+    org = getattr(p, 'softmax_origin', None)
+    if not org or not all(is_sym(x) for x in xs):
+        return None
+    hits = [org.get(x.get_id()) for x in xs]
+    if any(h is None for h in hits) or any(h[0] != hits[0][0] or h[1] != i for i, h in enumerate(hits)) or len(hits[0][2]) != len(xs):
+        return None
+    return list(hits[0][2])
+
+
 def _argmax_list(xs):
     if not any(is_sym(x) for x in xs):
         best = 0
@@ -830,6 +842,14 @@ def _argmax_list(xs):
                 best = i
         return best
     # first index of the maximum
+    p = PATH()
+    if p is not None and not getattr(p, 'concrete', False) and p.lits and 1 < len(xs) <= 16:
+        # the case split made so far may already settle the winner: then the index is concrete on this path
+        ys = _softmax_logits(p, xs) or [to_real(x) if is_sym(x) else z3.RealVal(fractions.Fraction(x)) for x in xs]
+        for i in range(len(ys)):
+            c = z3.And(*([ys[i] > ys[j] for j in range(i)] + [ys[i] >= ys[j] for j in range(i + 1, len(ys))]))
+            if p.entailed(c):
+                return i
     idx = 0
     best = xs[0]
     for i in range(1, len(xs)):
